@@ -26,6 +26,8 @@ RULE = (
     "x*c, x%c, keccak of words / of dynamic content, array length and elements, storage written by setUp, optional vm.assume; "
     "every second contract also has a counted loop with a symbolic trip count (while-shaped, and do-while-shaped whose back edge is "
     "the taken JUMPI side) failing only after exactly k iterations, run with a per-function --loop below / above k; "
+    "atoms whose sub-expression has only run-time-concrete operands (literals, setUp storage; dirty / boundary values) under every "
+    "word instruction incl. SIGNEXTEND/SAR/SMOD/SDIV/BYTE/SHL/EXP, alone or tied to a parameter; "
     "`new C(arg)` with a constructor that panics for some argument derived from the test's parameter, the caller bubbling the "
     "revert data up or swallowing it (CREATE / CREATE2); guards on a memory word stored in the tail of a call's output window when the callee (identity precompile / helper contract) "
     "returns fewer bytes than the window; failures behind a JUMP to a JUMPDEST that follows a PUSH32 constant with embedded PUSH-opcode bytes (EIP-1967 slot, random); "
@@ -382,6 +384,51 @@ def check_loop_warning_repeat(ctx):
         artifacts.reset_halmos_state()
 
 
+def concrete_ops_jobs(ctx):
+    """directed: every word instruction applied to run-time-CONCRETE operands (literals and values stored by setUp; dirty and
+    boundary values) inside the guard of a failure: `if (y == 5 && op1(a1, b1) == v1 && … ) Panic(1)`, v_i from the instruction's
+    meaning (checked by the reference EVM: the witness y = 5 must fail there)."""
+    from vlib.artifacts import Fn, TestContract
+
+    rng = random.Random(17)
+    small = [0, 1, 2, 7, 8, 15, 30, 31, 32, 255, 256]
+    ops = ["SIGNEXTEND", "SAR", "SHL", "SHR", "BYTE", "SDIV", "SMOD", "DIV", "MOD", "EXP", "SLT", "SGT", "LT", "GT", "AND", "OR", "XOR",
+           "ADD", "SUB", "MUL"]
+    stored = {s_: v for s_, v in enumerate(rng.sample(e2e.DIRTY, 6))}
+    atoms = []
+    for op in ops:
+        firsts = small if op in ("SIGNEXTEND", "SAR", "SHL", "SHR", "BYTE") else e2e.DIRTY
+        pairs = [(a, b) for a in rng.sample(firsts, 4) for b in rng.sample(e2e.DIRTY, 3)]
+        if op == "SIGNEXTEND":
+            pairs += [(0, 0x1234), (1, 0x12345678), (0, 0x7F), (0, 0x80), (1, 0xFF7F), (30, (1 << 255) + 0x34), (2, 0xABCD00)]
+        for a, b in pairs[: (19 if op == "SIGNEXTEND" else 8)]:
+            ea = e2e.SLoad(next(k for k, v in stored.items() if v == a)) if a in stored.values() and rng.random() < 0.5 else e2e.Const(a)
+            eb = e2e.SLoad(next(k for k, v in stored.items() if v == b)) if b in stored.values() and rng.random() < 0.5 else e2e.Const(b)
+            e = e2e.Bin(op, ea, eb)
+            atoms.append((op, e2e.Bin("EQ", e, e2e.Const(e.ev({"args": [], "storage": stored})))))
+    rng.shuffle(atoms)
+    setup = []
+    for s_, v in stored.items():
+        setup += [("push", v), ("push", s_), "SSTORE"]
+    solvers = _solver_cmds()
+    jobs, per_test, per_contract = [], 5, 6
+    groups = [atoms[i:i + per_test] for i in range(0, len(atoms), per_test)]
+    for ci in range(0, len(groups), per_contract):
+        checks = []
+        for t, grp in enumerate(groups[ci:ci + per_contract]):
+            opsn = "+".join(sorted({o for o, _ in grp}))
+            checks.append(e2e.Check(f"check_c{t}", [e2e.Param("uint256", "y")], [e2e.Bin("EQ", e2e.Arg(0), e2e.Const(5))] + [a for _, a in grp],
+                                    "panic", 1, True, [5], None, rng.choice(["and", "nested"]), f"concrete-operands:{opsn}", True))
+        desc = TestContract(f"ConcOps{ci}", [Fn("setUp()", setup + ["STOP"])] + [Fn(c.named, c.body()) for c in checks])
+        gen = e2e.Generated(desc, checks, dict(stored), [], dyn_sizes={"bytes": e2e.DEFAULT_BYTES_SIZES, "uint256[]": e2e.DEFAULT_ARRAY_SIZES})
+        sname, cmd = solvers[(ci // per_contract) % len(solvers)]
+        layout = ["solidity", "generic"][(ci // per_contract) % 2]
+        run = run_halmos(gen, cmd, layout)
+        jobs.append({"gen": gen, "run": run, "solver": sname, "layout": layout, "sweep": 6, "panic_codes": (1,), "opts": "default",
+                     "spec": {"kind": "concrete-ops"}})
+    return jobs
+
+
 def harvest_pool():
     from vlib import solvekit as K
 
@@ -491,6 +538,8 @@ def correspond(ctx):
     chunk = 60
     for off in range(0, len(specs), chunk):
         jobs = make_jobs(ctx, specs[off:off + chunk], lambda k, off=off: combos(off + k))
+        if off == 0:
+            jobs = concrete_ops_jobs(ctx) + jobs
         if not jobs:
             break
         batch = e2e.RefBatch()
@@ -504,6 +553,13 @@ def correspond(ctx):
 
 
 def replay(ctx, data) -> bool:
+    if (data.get("contract") or {}).get("kind") == "concrete-ops":
+        jobs = concrete_ops_jobs(ctx)
+        batch = e2e.RefBatch()
+        collect(ctx, jobs, batch)
+        batch.run(ctx)
+        judge(ctx, jobs, batch)
+        return bool(ctx.violations)
     if data.get("kind") == "loop-warning-repeat":
         check_loop_warning_repeat(ctx)
         return bool(ctx.violations)
